@@ -534,6 +534,13 @@ def pstar_of(ref, n):
     return paw[n - 1]
 
 
+def confirm(case, result):
+    """A violation that involves the Node driver must survive a fresh Node process (see c20.confirm)."""
+    jsbridge.stop()
+    again = execute(case)
+    return again['verdict'] == 'violation' and again['oracle'] == result['oracle']
+
+
 def signature(sc, result):
     d = result.get('detail') or {}
     extra = ''
